@@ -34,6 +34,8 @@ func main() {
 		cmdList(os.Args[2:])
 	case "baseline":
 		cmdBaseline(os.Args[2:])
+	case "selftest":
+		os.Exit(cmdSelftest())
 	case "globals":
 		w, err := LoadWorld(repoRoot, specDir(), nil)
 		if err != nil {
@@ -127,4 +129,81 @@ func trunc(s string, n int) string {
 		return s[:n] + "..."
 	}
 	return s
+}
+
+
+// cmdSelftest verifies the functions of govc/selftest, injected through an
+// overlay into a small package of /repo: every mustfailN must have an
+// obligation that is not proved, every mustpassN must be proved completely.
+func cmdSelftest() int {
+	dir := filepath.Join(repoRoot, "go", "signedexchange", "internal", "bigendian")
+	overlay := map[string][]byte{}
+	for _, f := range []string{"zz_selftest.go", "zz_selftest_contracts_verif.go"} {
+		data, err := os.ReadFile(filepath.Join(verifDir, "govc", "selftest", f))
+		if err != nil {
+			fmt.Fprintln(os.Stderr, "selftest:", err)
+			return 2
+		}
+		overlay[filepath.Join(dir, f)] = data
+	}
+	w, err := LoadWorld(repoRoot, specDir(), overlay)
+	if err != nil {
+		fmt.Fprintln(os.Stderr, "selftest: cannot load:", err)
+		return 2
+	}
+	if err := w.Specs.LoadSpecFile(filepath.Join(verifDir, "govc", "selftest", "zz_selftest_contracts_verif.go"), w.ModPath+"/go/signedexchange/internal/bigendian"); err != nil {
+		fmt.Fprintln(os.Stderr, "selftest: contracts:", err)
+		return 2
+	}
+	bad := 0
+	var keys []string
+	for k := range w.FuncByKey {
+		if strings.Contains(k, "bigendian.mustfail") || strings.Contains(k, "bigendian.mustpass") {
+			keys = append(keys, k)
+		}
+	}
+	sort.Strings(keys)
+	work := filepath.Join(verifDir, "work", "selftest")
+	os.RemoveAll(work)
+	for _, k := range keys {
+		fn := w.FuncByKey[k]
+		c := w.VerifyFunc(fn)
+		results := dischargeAll(c.Obls, work, 4, 16)
+		unproved := 0
+		first := ""
+		for _, r := range results {
+			if r.Obl.Kind == "cover" {
+				continue
+			}
+			if r.Status != "proved" && r.Status != "cover-ok" {
+				unproved++
+				if first == "" {
+					first = r.Obl.Name + " (" + r.Status + ")"
+				}
+			}
+		}
+		if len(c.Unsupported) > 0 {
+			unproved++
+			first = "unsupported: " + c.Unsupported[0]
+		}
+		short := k[strings.LastIndex(k, ".")+1:]
+		switch {
+		case strings.HasPrefix(short, "mustfail") && unproved == 0:
+			fmt.Printf("SELFTEST BROKEN %s: every obligation was proved (%d obligations): the engine accepts a false contract\n", short, len(results))
+			bad++
+		case strings.HasPrefix(short, "mustpass") && unproved > 0:
+			fmt.Printf("SELFTEST BROKEN %s: %d obligation(s) not proved, first: %s\n", short, unproved, first)
+			bad++
+		default:
+			fmt.Printf("selftest ok %s (%d obligations, %d not proved%s)\n", short, len(results), unproved, map[bool]string{true: ": " + first, false: ""}[first != ""])
+		}
+	}
+	if len(keys) < 14 {
+		fmt.Printf("SELFTEST BROKEN: only %d self-test functions found\n", len(keys))
+		bad++
+	}
+	if bad > 0 {
+		return 1
+	}
+	return 0
 }
